@@ -63,6 +63,11 @@ class PauseTransparent(Monitor):
             sig.setdefault("after_partial_join_rerun", sim.h["rejoin"])
             return [{"kind": kind, "sig": sig, "detail": d}]
 
+        if op == "req" and move[1] in PAUSE_REQ and res.exc is None and g["phase"] == 2:
+            # a second pause after a resume: the twin simply carries on
+            g["phase"] = 1
+            g["first_dispatch_after_resume"] = False
+            return self._pause_invariants(g, sim, post, res, move)
         if op == "req" and move[1] in PAUSE_REQ and res.exc is None and g["phase"] == 0:
             twin = ctx.fresh_pre()
             twin.ghost = {}
